@@ -79,8 +79,11 @@ def sort_dict_of_paths(d):
     for key in d.keys():
         if d[key]:
             d[key] = ['']*(max_rec-len(d[key])) + d[key]
-    # Sort the dict relatively to the paths alphabetical order
-    d_sort = sorted(d.items(), key=lambda x: nonesorter(x[1]))
+    # Sort the dict relatively to the order in which recwalk() walks a tree: inside a folder, files (in alphabetical order) come before subfolders (in alphabetical order). The sort key must be the same order as the walking order, else the alignment of the folders is lost as soon as paths of different depths are compared (a left padded shallow path would always sort before a deeper one, whereas recwalk() yields all files of d1/sub/ before any file of d2/).
+    def walksorter(a):
+        parts = [part for part in nonesorter(a) if part != ''] or ['']
+        return [(1, part) for part in parts[:-1]] + [(0, parts[-1])]
+    d_sort = sorted(d.items(), key=lambda x: walksorter(x[1]))
     return d_sort
 
 def sort_group(d, return_only_first=False):
